@@ -1,6 +1,6 @@
 (* C02 — the acceptance decision: soundness of [accept], purity of rejection, rejection of tampered blocks. *)
 From Coq Require Import List ZArith Bool Lia.
-From V Require Import C01.Term C01.State C02.Model C02.Proofs_Enc C02.Proofs_Trie C02.Proofs_Tx C02.Proofs_Block.
+From V Require Import C01.Term C01.State C02.Model C02.Proofs_Enc C02.Proofs_Trie C02.Proofs_Tx C02.Proofs_Block C02.Proofs_Class.
 Import ListNotations.
 Open Scope Z_scope.
 
@@ -67,99 +67,7 @@ Proof.
   - f_equal. apply bits_eqb_true. exact E.
 Qed.
 
-(* ---------- soundness of accept ---------- *)
-Definition linked (cs : chain_state) (b : block) : Prop :=
-  match cs_head cs with
-  | None => h_number (b_hdr b) = 0 /\ h_parent (b_hdr b) = TC 0
-  | Some (n, hh) => h_number (b_hdr b) = n + 1 /\ h_parent (b_hdr b) = hh
-  end.
-
-Lemma succession_ok_linked : forall cs b, succession_ok cs b = true -> linked cs b.
-Proof.
-  unfold succession_ok, linked. intros cs b H. apply andb_true_iff in H. destruct H as [_ H].
-  destruct (cs_head cs) as [[n hh]|]; apply andb_true_iff in H; destruct H as [A B];
-    apply Z.eqb_eq in A; apply term_eqb_true in B; auto.
-Qed.
-
-Definition tx_recomputes (ch : Z) (t : txrec) : Prop := is_unverified t = true \/ tx_hash ch (t_body t) = t_hash t.
-
-Lemma tx_hashes_ok_sound : forall ch b, tx_hashes_ok ch b = true ->
-  tx_verified b = true -> Forall (tx_recomputes ch) (b_txs b).
-Proof.
-  unfold tx_hashes_ok. intros ch b H V. rewrite V in H. cbn [negb orb] in H.
-  rewrite forallb_forall in H. apply Forall_forall.
-  intros t I. specialize (H t I). apply orb_true_iff in H. destruct H as [H|H]; [left; exact H | right; apply term_eqb_true; exact H].
-Qed.
-
-Lemma receipts_match_sound : forall txs rs, receipts_match txs rs = true ->
-  Forall2 (fun t r => t_hash t = r_txhash r) txs rs.
-Proof.
-  induction txs as [|t txs IH]; intros [|r rs] H; simpl in H; try discriminate; constructor.
-  - apply andb_true_iff in H. destruct H as [A _]. apply term_eqb_true. exact A.
-  - apply IH. apply andb_true_iff in H. tauto.
-Qed.
-
-Lemma accept_inv : forall ch cs b cs', accept ch cs b = Some cs' ->
-  (receipts_match (b_txs b) (b_rcpts b) = true /\ tx_hashes_ok ch b = true /\ block_hash_ok b = true /\
-   succession_ok cs b = true /\ roots_ok cs b = true) /\
-  cs' = {| cs_head := Some (h_number (b_hdr b), b_hash b); cs_state := new_state cs b; cs_blocks := b :: cs_blocks cs |}.
-Proof.
-  intros ch cs b cs'. unfold accept.
-  generalize (receipts_match (b_txs b) (b_rcpts b)) (tx_hashes_ok ch b) (block_hash_ok b)
-             (succession_ok cs b) (roots_ok cs b).
-  intros [|] [|] [|] [|] [|]; cbn [andb]; intros H; try discriminate.
-  injection H as <-. repeat split.
-Time Qed.
-
-Lemma block_hash_ok_sound : forall b, block_hash_ok b = true -> block_hash b = Some (b_hash b).
-Proof.
-  unfold block_hash_ok. intros b. generalize (block_hash b). intros [h|] H; [|discriminate].
-  apply term_eqb_true in H. congruence.
-Time Qed.
-
-Lemma roots_ok_sound : forall cs b, roots_ok cs b = true ->
-  commitment (pre_0_14 b) (cs_state cs) = b_old_root b /\
-  commitment (pre_0_14 b) (new_state cs b) = h_state_root (b_hdr b).
-Proof.
-  unfold roots_ok. intros cs b.
-  generalize (commitment (pre_0_14 b) (cs_state cs)) (commitment (pre_0_14 b) (new_state cs b)).
-  intros x y H. apply andb_true_iff in H. destruct H as [R1 R2].
-  apply term_eqb_true in R1. apply term_eqb_true in R2. auto.
-Qed.
-
-Theorem accept_sound : forall ch cs b cs', accept ch cs b = Some cs' ->
-  linked cs b /\
-  Forall2 (fun t r => t_hash t = r_txhash r) (b_txs b) (b_rcpts b) /\
-  (tx_verified b = true -> Forall (tx_recomputes ch) (b_txs b)) /\
-  block_hash b = Some (b_hash b) /\
-  commitment (pre_0_14 b) (cs_state cs) = b_old_root b /\
-  commitment (pre_0_14 b) (new_state cs b) = h_state_root (b_hdr b) /\
-  cs' = {| cs_head := Some (h_number (b_hdr b), b_hash b);
-           cs_state := new_state cs b;
-           cs_blocks := b :: cs_blocks cs |}.
-Proof.
-  intros ch cs b cs' H. apply accept_inv in H. destruct H as ((R & T & B & S & Ro) & E).
-  apply roots_ok_sound in Ro. destruct Ro as (R1 & R2).
-  split; [apply succession_ok_linked; exact S|].
-  split; [apply receipts_match_sound; exact R|].
-  split; [apply tx_hashes_ok_sound; exact T|].
-  split; [apply block_hash_ok_sound; exact B|].
-  split; [exact R1|]. split; [exact R2 | exact E].
-Time Qed.
-
-(* ---------- rejection is pure ---------- *)
-Theorem reject_pure : forall ch cs b, accept ch cs b = None -> push ch cs b = cs.
-Proof. intros ch cs b H. unfold push. rewrite H. reflexivity. Qed.
-
-(* ... at every position of a history: a rejected block can be deleted from the input without any effect *)
-Theorem reject_pure_run : forall ch bs1 b bs2,
-  accept ch (run ch bs1) b = None -> run ch (bs1 ++ b :: bs2) = run ch (bs1 ++ bs2).
-Proof.
-  intros ch bs1 b bs2 H. unfold run in *. rewrite !fold_left_app. simpl.
-  rewrite (reject_pure _ _ _ H). reflexivity.
-Qed.
-
-(* ---------- the committed projection by format, and the tamper theorem ---------- *)
+(* ---------- the committed projection by format ---------- *)
 Definition committed (b : block) :=
   let v := h_ver (b_hdr b) in
   if ver_ge v (0, 13, 4) then inl (committed_0134 b)
@@ -180,13 +88,16 @@ Theorem preimage_injective : forall b1 b2 h, block_wf b1 -> block_wf b2 -> same_
 Proof.
   unfold block_hash, committed, same_sig_rule. intros b1 b2 h W1 W2 SR H1 H2.
   destruct (ver_ge (h_ver (b_hdr b1)) (0, 13, 4)), (ver_ge (h_ver (b_hdr b2)) (0, 13, 4)).
-  - apply some_inj in H1. apply some_inj in H2. rewrite <- H2 in H1.
+  - destruct (h_prices_present (b_hdr b1)); [|discriminate]. destruct (h_prices_present (b_hdr b2)); [|discriminate].
+    apply some_inj in H1. apply some_inj in H2. rewrite <- H2 in H1.
     rewrite (preimage_injective_0134 _ _ W1 W2 H1). reflexivity.
-  - exfalso. destruct (ver_ge (h_ver (b_hdr b2)) (0, 13, 2));
+  - exfalso. destruct (h_prices_present (b_hdr b1)); [|discriminate].
+    destruct (ver_ge (h_ver (b_hdr b2)) (0, 13, 2));
       apply some_inj in H1; apply some_inj in H2; rewrite <- H2 in H1.
     + apply formats_disjoint in H1. exact H1.
     + symmetry in H1. apply (post07_disjoint b2 b1) in H1. exact H1.
-  - exfalso. destruct (ver_ge (h_ver (b_hdr b1)) (0, 13, 2));
+  - exfalso. destruct (h_prices_present (b_hdr b2)); [|discriminate].
+    destruct (ver_ge (h_ver (b_hdr b1)) (0, 13, 2));
       apply some_inj in H1; apply some_inj in H2; rewrite <- H1 in H2.
     + apply formats_disjoint in H2. exact H2.
     + symmetry in H2. apply (post07_disjoint b1 b2) in H2. exact H2.
@@ -198,36 +109,289 @@ Proof.
     + rewrite (preimage_injective_post07 _ _ W1 W2 (SR eq_refl eq_refl) H1). reflexivity.
 Qed.
 
-(* b is a block whose declared hash recomputes; b' carries the same declared hash but differs from b in a
-   committed field: it is rejected, whatever the chain state *)
+(* ================= acceptance under an arbitrary evaluation of hash terms ================= *)
+Section AcceptEv.
+Variable ev : term -> term.
+Variable kec : list Z -> Z.
+
+Lemma eqv_true : forall a b, eqv ev a b = true -> ev a = ev b.
+Proof. unfold eqv. intros a b H. apply term_eqb_true. exact H. Qed.
+
+Definition linked_ev (cs : chain_state) (b : block) : Prop :=
+  match cs_head cs with
+  | None => h_number (b_hdr b) = 0 /\ ev (h_parent (b_hdr b)) = ev (TC 0)
+  | Some (n, hh) => h_number (b_hdr b) = n + 1 /\ ev (h_parent (b_hdr b)) = ev hh
+  end.
+
+Lemma succession_ok_linked : forall cs b, succession_ok ev cs b = true -> linked_ev cs b.
+Proof.
+  unfold succession_ok, linked_ev. intros cs b H. apply andb_true_iff in H. destruct H as [_ H].
+  destruct (cs_head cs) as [[n hh]|]; apply andb_true_iff in H; destruct H as [A B];
+    apply Z.eqb_eq in A; apply eqv_true in B; auto.
+Qed.
+
+Definition tx_recomputes_ev (ch : Z) (t : txrec) : Prop :=
+  is_unverified t = true \/ ev (tx_hash ch (t_body t)) = ev (t_hash t).
+
+Lemma tx_hashes_ok_sound : forall ch b, tx_hashes_ok ev ch b = true ->
+  tx_verified b = true -> Forall (tx_recomputes_ev ch) (b_txs b).
+Proof.
+  unfold tx_hashes_ok. intros ch b H V. rewrite V in H. cbn [negb orb] in H.
+  rewrite forallb_forall in H. apply Forall_forall.
+  intros t I. specialize (H t I). apply orb_true_iff in H. destruct H as [H|H]; [left; exact H | right; apply eqv_true; exact H].
+Qed.
+
+Lemma receipts_match_sound : forall txs rs, receipts_match ev txs rs = true ->
+  Forall2 (fun t r => ev (t_hash t) = ev (r_txhash r)) txs rs.
+Proof.
+  induction txs as [|t txs IH]; intros [|r rs] H; simpl in H; try discriminate; constructor.
+  - apply andb_true_iff in H. destruct H as [A _]. apply eqv_true. exact A.
+  - apply IH. apply andb_true_iff in H. tauto.
+Qed.
+
+(* a delivered definition verifies: Cairo-0 definitions are not checked at all *)
+Definition class_verifies (kc : Z * cdef) : Prop :=
+  match snd kc with
+  | Cairo0 => True
+  | Sierra c => ev (class_hash kec c) = ev (TC (fst kc))
+  end.
+
+Lemma classes_ok_sound : forall b, classes_ok ev kec b = true -> Forall class_verifies (b_classes b).
+Proof.
+  unfold classes_ok. intros b H. rewrite forallb_forall in H. apply Forall_forall. intros kc I.
+  specialize (H kc I). unfold class_ok in H. unfold class_verifies. destruct (snd kc); [exact Logic.I|].
+  apply eqv_true. exact H.
+Qed.
+
+Lemma su_ok_sound : forall b, su_ok ev b = true ->
+  ev (b_hash b) = ev (b_su_hash b) /\ ev (h_state_root (b_hdr b)) = ev (b_su_new_root b).
+Proof.
+  unfold su_ok. intros b H. apply andb_true_iff in H. destruct H as [A B]. split; apply eqv_true; assumption.
+Qed.
+
+Lemma accept_ev_inv : forall ch cs b cs', accept_ev ev kec ch cs b = Some cs' ->
+  (su_ok ev b = true /\ classes_ok ev kec b = true /\ receipts_match ev (b_txs b) (b_rcpts b) = true /\
+   tx_hashes_ok ev ch b = true /\ block_hash_ok ev b = true /\
+   succession_ok ev cs b = true /\ diff_applicable (cs_state cs) (b_diff b) = true /\ roots_ok ev cs b = true /\
+   casm_ok cs b = true) /\
+  cs' = next_state cs b.
+Proof.
+  intros ch cs b cs'. unfold accept_ev.
+  generalize (su_ok ev b) (classes_ok ev kec b) (receipts_match ev (b_txs b) (b_rcpts b)) (tx_hashes_ok ev ch b)
+             (block_hash_ok ev b) (succession_ok ev cs b) (diff_applicable (cs_state cs) (b_diff b)) (roots_ok ev cs b)
+             (casm_ok cs b) (next_state cs b).
+  intros [|] [|] [|] [|] [|] [|] [|] [|] [|] n; cbn [andb]; intros H; try discriminate.
+  injection H as <-. repeat split.
+Qed.
+
+Lemma block_hash_ok_sound : forall b, block_hash_ok ev b = true ->
+  exists h, block_hash b = Some h /\ ev h = ev (b_hash b).
+Proof.
+  unfold block_hash_ok. intros b. generalize (block_hash b). intros [h|] H; [|discriminate].
+  exists h. split; [reflexivity | apply eqv_true; exact H].
+Qed.
+
+Lemma roots_ok_sound : forall cs b, roots_ok ev cs b = true ->
+  ev (commitment (pre_0_14 b) (cs_state cs)) = ev (b_old_root b) /\
+  ev (commitment (pre_0_14 b) (new_state cs b)) = ev (h_state_root (b_hdr b)).
+Proof.
+  unfold roots_ok. intros cs b.
+  generalize (commitment (pre_0_14 b) (cs_state cs)) (commitment (pre_0_14 b) (new_state cs b)).
+  intros x y H. apply andb_true_iff in H. destruct H as [R1 R2].
+  apply eqv_true in R1. apply eqv_true in R2. auto.
+Qed.
+
+Theorem accept_ev_sound : forall ch cs b cs', accept_ev ev kec ch cs b = Some cs' ->
+  ev (b_hash b) = ev (b_su_hash b) /\ ev (h_state_root (b_hdr b)) = ev (b_su_new_root b) /\
+  Forall class_verifies (b_classes b) /\
+  linked_ev cs b /\
+  Forall2 (fun t r => ev (t_hash t) = ev (r_txhash r)) (b_txs b) (b_rcpts b) /\
+  (tx_verified b = true -> Forall (tx_recomputes_ev ch) (b_txs b)) /\
+  (exists h, block_hash b = Some h /\ ev h = ev (b_hash b)) /\
+  ev (commitment (pre_0_14 b) (cs_state cs)) = ev (b_old_root b) /\
+  ev (commitment (pre_0_14 b) (new_state cs b)) = ev (h_state_root (b_hdr b)) /\
+  cs' = next_state cs b.
+Proof.
+  intros ch cs b cs' H. apply accept_ev_inv in H. destruct H as ((U & C & R & T & B & S & _ & Ro & _) & E).
+  apply roots_ok_sound in Ro. destruct Ro as (R1 & R2). apply su_ok_sound in U. destruct U as (U1 & U2).
+  split; [exact U1|]. split; [exact U2|].
+  split; [apply classes_ok_sound; exact C|].
+  split; [apply succession_ok_linked; exact S|].
+  split; [apply receipts_match_sound; exact R|].
+  split; [apply tx_hashes_ok_sound; exact T|].
+  split; [apply block_hash_ok_sound; exact B|].
+  split; [exact R1|]. split; [exact R2 | exact E].
+Qed.
+
+(* ---------- rejection is pure ---------- *)
+Theorem reject_pure_ev : forall ch cs b, accept_ev ev kec ch cs b = None -> push_ev ev kec ch cs b = cs.
+Proof. intros ch cs b H. unfold push_ev. rewrite H. reflexivity. Qed.
+
+(* ... at every position of a history: a rejected block can be deleted from the input without any effect *)
+Theorem reject_pure_run_ev : forall ch bs1 b bs2,
+  accept_ev ev kec ch (run_ev ev kec ch bs1) b = None ->
+  run_ev ev kec ch (bs1 ++ b :: bs2) = run_ev ev kec ch (bs1 ++ bs2).
+Proof.
+  intros ch bs1 b bs2 H. unfold run_ev in *. rewrite !fold_left_app. simpl.
+  rewrite (reject_pure_ev _ _ _ H). reflexivity.
+Qed.
+
+(* ---------- tampering ---------- *)
+(* b is a block whose declared hash recomputes (under ev); b' carries the same declared hash value but differs
+   from b in a committed field: it is rejected, whatever the chain state - or the two block-hash preimages are
+   an explicit pair of DIFFERENT hash inputs that ev maps to the same felt *)
+Theorem tamper_rejected_ev : forall ch cs b b' h, block_wf b -> block_wf b' -> same_sig_rule b' b ->
+  block_hash b = Some h -> ev h = ev (b_hash b) -> ev (b_hash b') = ev (b_hash b) -> committed b' <> committed b ->
+  accept_ev ev kec ch cs b' = None \/
+  (exists h', block_hash b' = Some h' /\ h' <> h /\ ev h' = ev h).
+Proof.
+  intros ch cs b b' h W W' SR V Vh D N. destruct (accept_ev ev kec ch cs b') as [cs'|] eqn:A; [|left; reflexivity].
+  right. apply accept_ev_sound in A. destruct A as (_ & _ & _ & _ & _ & _ & (h' & BH & E) & _).
+  exists h'. split; [exact BH|]. split.
+  - intros ->. apply N. eapply preimage_injective; eauto.
+  - congruence.
+Qed.
+
+(* a transaction whose declared hash is the hash of different fields *)
+Theorem tx_tamper_rejected_ev : forall ch cs b' t' body, In t' (b_txs b') -> tx_verified b' = true ->
+  tx_ok body -> tx_ok (t_body t') -> ev (tx_hash ch body) = ev (t_hash t') -> t_body t' <> body ->
+  accept_ev ev kec ch cs b' = None \/
+  (tx_hash ch (t_body t') <> tx_hash ch body /\ ev (tx_hash ch (t_body t')) = ev (tx_hash ch body)).
+Proof.
+  intros ch cs b' t' body I TV O O' V N. destruct (accept_ev ev kec ch cs b') as [cs'|] eqn:A; [|left; reflexivity].
+  right. apply accept_ev_sound in A. destruct A as (_ & _ & _ & _ & _ & T & _). specialize (T TV).
+  rewrite Forall_forall in T. specialize (T _ I). destruct T as [T|T].
+  - exfalso. unfold is_unverified in T. destruct (t_body t'); try discriminate. exact O'.
+  - split; [|congruence]. intros E. apply N. apply (tx_hash_injective ch); auto.
+Qed.
+
+(* a delivered Sierra definition c' under the key of a different class c (the class the state diff commits to:
+   its hash evaluates to the key k): rejected - or an explicit pair of different class-hash inputs with the same
+   felt, or an explicit Keccak collision on the two ABI texts *)
+Theorem class_tamper_rejected_ev : forall ch cs b' k c c', In (k, Sierra c') (b_classes b') ->
+  ev (class_hash kec c) = ev (TC k) -> class_ok_wf c -> class_ok_wf c' -> c' <> c ->
+  accept_ev ev kec ch cs b' = None \/
+  (class_hash kec c' <> class_hash kec c /\ ev (class_hash kec c') = ev (class_hash kec c)) \/
+  kec_collision kec (sc_abi c') (sc_abi c).
+Proof.
+  intros ch cs b' k c c' I V W W' N. destruct (accept_ev ev kec ch cs b') as [cs'|] eqn:A; [|left; reflexivity].
+  right. apply accept_ev_sound in A. destruct A as (_ & _ & C & _).
+  rewrite Forall_forall in C. specialize (C _ I). unfold class_verifies in C. cbn [snd fst] in C.
+  destruct (class_field_committed kec c c' W W' N) as [D|K]; [left | right; exact K].
+  split; [exact D | congruence].
+Qed.
+
+(* a declared root that is not (under ev) the commitment of (held state + diff), a stale old root, a broken
+   linkage, or a state update that disagrees with the header: rejected *)
+Theorem wrong_root_rejected_ev : forall ch cs b,
+  ev (commitment (pre_0_14 b) (new_state cs b)) <> ev (h_state_root (b_hdr b)) \/
+  ev (commitment (pre_0_14 b) (cs_state cs)) <> ev (b_old_root b) \/ ~ linked_ev cs b \/
+  ev (b_hash b) <> ev (b_su_hash b) \/ ev (h_state_root (b_hdr b)) <> ev (b_su_new_root b) ->
+  accept_ev ev kec ch cs b = None.
+Proof.
+  intros ch cs b H. destruct (accept_ev ev kec ch cs b) as [cs'|] eqn:A; [|reflexivity].
+  exfalso. apply accept_ev_sound in A. destruct A as (U1 & U2 & _ & L & _ & _ & _ & R1 & R2 & _). tauto.
+Qed.
+
+(* a >= 0.13.4 block without the price objects has no hash: rejected (fixed defect sanity-panic:nil-gas-price) *)
+Theorem missing_prices_rejected_ev : forall ch cs b,
+  ver_ge (h_ver (b_hdr b)) (0, 13, 4) = true -> h_prices_present (b_hdr b) = false ->
+  accept_ev ev kec ch cs b = None.
+Proof.
+  intros ch cs b V P. destruct (accept_ev ev kec ch cs b) as [cs'|] eqn:A; [|reflexivity].
+  exfalso. apply accept_ev_sound in A. destruct A as (_ & _ & _ & _ & _ & _ & (h & BH & _) & _).
+  unfold block_hash in BH. rewrite V, P in BH. discriminate.
+Qed.
+(* what the state layer and the CASM-hash bookkeeping refuse: a contract deployed twice, a class replaced / a
+   nonce / a storage diff for a contract that is not deployed, a (pre-0.14.1) declared class without a Sierra
+   definition, a migration of a class that was never declared, was declared with the V2 hash or is migrated already *)
+Theorem accepted_applicable : forall ch cs b cs', accept_ev ev kec ch cs b = Some cs' ->
+  diff_applicable (cs_state cs) (b_diff b) = true /\ casm_ok cs b = true.
+Proof.
+  intros ch cs b cs' H. apply accept_ev_inv in H. destruct H as ((_ & _ & _ & _ & _ & _ & A & _ & K) & _). auto.
+Qed.
+End AcceptEv.
+
+(* ================= the free-algebra instance (ev = identity: syntactic comparison) ================= *)
+Definition linked (cs : chain_state) (b : block) : Prop :=
+  match cs_head cs with
+  | None => h_number (b_hdr b) = 0 /\ h_parent (b_hdr b) = TC 0
+  | Some (n, hh) => h_number (b_hdr b) = n + 1 /\ h_parent (b_hdr b) = hh
+  end.
+Definition tx_recomputes (ch : Z) (t : txrec) : Prop := is_unverified t = true \/ tx_hash ch (t_body t) = t_hash t.
+
+Lemma tid_eq : forall a b : term, tid a = tid b -> a = b.
+Proof. intros a b H. exact H. Qed.
+Lemma tid_neq : forall a b : term, a <> b -> tid a <> tid b.
+Proof. intros a b H. exact H. Qed.
+
+Lemma linked_tid : forall cs b, linked_ev tid cs b -> linked cs b.
+Proof.
+  unfold linked_ev, linked. intros cs b. destruct (cs_head cs) as [[n hh]|]; intros [A B]; split; auto; apply tid_eq; exact B.
+Qed.
+Lemma linked_tid_inv : forall cs b, linked cs b -> linked_ev tid cs b.
+Proof.
+  unfold linked_ev, linked. intros cs b. destruct (cs_head cs) as [[n hh]|]; intros [A B]; split; auto; rewrite B; reflexivity.
+Qed.
+
+Lemma forall2_tid : forall txs rs, Forall2 (fun t r => tid (t_hash t) = tid (r_txhash r)) txs rs ->
+  Forall2 (fun t r => t_hash t = r_txhash r) txs rs.
+Proof. induction 1; constructor; auto. Qed.
+
+Lemma recomputes_tid : forall ch l, Forall (tx_recomputes_ev tid ch) l -> Forall (tx_recomputes ch) l.
+Proof. induction 1 as [|t l H _ IH]; constructor; auto. Qed.
+
+Theorem accept_sound : forall ch cs b cs', accept ch cs b = Some cs' ->
+  b_hash b = b_su_hash b /\ h_state_root (b_hdr b) = b_su_new_root b /\
+  linked cs b /\
+  Forall2 (fun t r => t_hash t = r_txhash r) (b_txs b) (b_rcpts b) /\
+  (tx_verified b = true -> Forall (tx_recomputes ch) (b_txs b)) /\
+  block_hash b = Some (b_hash b) /\
+  commitment (pre_0_14 b) (cs_state cs) = b_old_root b /\
+  commitment (pre_0_14 b) (new_state cs b) = h_state_root (b_hdr b) /\
+  cs' = next_state cs b.
+Proof.
+  intros ch cs b cs' H. apply (accept_ev_sound tid kec0) in H.
+  destruct H as (U1 & U2 & _ & L & R & T & (h & BH & E) & R1 & R2 & C).
+  apply tid_eq in U1, U2, E, R1, R2. subst h.
+  split; [exact U1|]. split; [exact U2|]. split; [apply linked_tid; exact L|].
+  split; [apply forall2_tid; exact R|]. split; [intros V; apply recomputes_tid; apply T; exact V|].
+  split; [exact BH|]. split; [exact R1|]. split; [exact R2 | exact C].
+Qed.
+
+Theorem reject_pure : forall ch cs b, accept ch cs b = None -> push ch cs b = cs.
+Proof. exact (reject_pure_ev tid kec0). Qed.
+
+Theorem reject_pure_run : forall ch bs1 b bs2,
+  accept ch (run ch bs1) b = None -> run ch (bs1 ++ b :: bs2) = run ch (bs1 ++ bs2).
+Proof. exact (reject_pure_run_ev tid kec0). Qed.
+
 Theorem tamper_rejected : forall ch cs b b', block_wf b -> block_wf b' -> same_sig_rule b' b ->
   block_hash b = Some (b_hash b) -> b_hash b' = b_hash b -> committed b' <> committed b ->
   accept ch cs b' = None.
 Proof.
-  intros ch cs b b' W W' SR V D N. destruct (accept ch cs b') as [cs'|] eqn:A; [|reflexivity].
-  exfalso. apply accept_sound in A. destruct A as (_ & _ & _ & BH & _).
-  rewrite D in BH. apply N. eapply preimage_injective; eauto.
+  intros ch cs b b' W W' SR V D N.
+  destruct (tamper_rejected_ev tid kec0 ch cs b b' (b_hash b) W W' SR V eq_refl (f_equal tid D) N) as [H|(h' & _ & NE & E)];
+    [exact H | exfalso; apply NE; exact E].
 Qed.
 
-(* a transaction whose declared hash belongs to different fields *)
 Theorem tx_tamper_rejected : forall ch cs b' t' body, In t' (b_txs b') -> tx_verified b' = true ->
   tx_ok body -> tx_ok (t_body t') -> tx_hash ch body = t_hash t' -> t_body t' <> body ->
   accept ch cs b' = None.
 Proof.
-  intros ch cs b' t' body I TV O O' V N. destruct (accept ch cs b') as [cs'|] eqn:A; [|reflexivity].
-  exfalso. apply accept_sound in A. destruct A as (_ & _ & T & _). specialize (T TV).
-  rewrite Forall_forall in T. specialize (T _ I). destruct T as [T|T].
-  - unfold is_unverified in T. destruct (t_body t'); try discriminate. exact O'.
-  - apply N. apply (tx_hash_injective ch); auto. congruence.
+  intros ch cs b' t' body I TV O O' V N.
+  destruct (tx_tamper_rejected_ev tid kec0 ch cs b' t' body I TV O O' (f_equal tid V) N) as [H|(NE & E)];
+    [exact H | exfalso; apply NE; exact E].
 Qed.
 
-(* a declared state root that is not the commitment of (current state + diff), a stale old root, or a broken
-   linkage: rejected *)
 Theorem wrong_root_rejected : forall ch cs b,
   commitment (pre_0_14 b) (new_state cs b) <> h_state_root (b_hdr b) \/
   commitment (pre_0_14 b) (cs_state cs) <> b_old_root b \/ ~ linked cs b ->
   accept ch cs b = None.
 Proof.
-  intros ch cs b H. destruct (accept ch cs b) as [cs'|] eqn:A; [|reflexivity].
-  exfalso. apply accept_sound in A. destruct A as (L & _ & _ & _ & R1 & R2 & _). tauto.
+  intros ch cs b H. apply (wrong_root_rejected_ev tid kec0).
+  destruct H as [H|[H|H]].
+  - left. apply tid_neq. exact H.
+  - right; left. apply tid_neq. exact H.
+  - right; right; left. intros L. apply H. apply linked_tid. exact L.
 Qed.
